@@ -456,11 +456,24 @@ def _mk(m, kind):
         p, t = m.Lock(), threading.Lock()
         ops = [lambda o, x: o.acquire(False), lambda o, x: o.release(), lambda o, x: o.acquire(True, 0)]
         state = lambda o: None
-    else:
+    elif kind == 6:
         p, t = m.BoundedSemaphore(2), threading.BoundedSemaphore(2)
         ops = [lambda o, x: o.acquire(False), lambda o, x: o.release()]
         state = lambda o: None
+    else:
+        # the registered 'Iterator' type: what a method listed in method_to_typeid (PoolProxy.imap ...) hands back - a proxy of a
+        # generator living in the server; next / send / close through it behave like the generator itself
+        src = m.vp_gen()
+        p, t = src.items(), _Gen().items()
+        ops = [lambda o, x: next(o), lambda o, x: o.send(None), lambda o, x: o.close(), lambda o, x: iter(o) is o]
+        state = lambda o: None
     return p, t, ops, state
+
+
+class _Gen:
+    def items(self):
+        yield 10
+        yield 20
 
 
 def getattr_or(o, name):
@@ -476,8 +489,9 @@ XS = (0, 1, 3)          # 3 is out of range for the array, a second item for the
 
 def _types(code, want):
     nd = NDCode(code)
-    kind = PART % 7 if NPART > 1 else nd.draw(0, 6)
+    kind = PART % 8 if NPART > 1 else nd.draw(0, 7)
     with untraced():
+        bm.SyncManager.register('vp_gen', callable=_Gen, exposed=('items',), method_to_typeid={'items': 'Iterator'})
         m, srv = setup()
         p, t, ops, state = _mk(m, kind)
     raised = False
